@@ -168,6 +168,10 @@ def encoder_rule(repo: Repo, rep: Report, rid: str) -> None:
                         if t.id == val:
                             problems.append(f"value parameter '{val}' is re-assigned: '{short(st, 60)}'")
                         tainted.add(t.id)
+        # comprehension variables iterating over the value carry it too (bytes(v & 0xFF for v in data))
+        for comp in walk_body(fi.node.body):
+            if isinstance(comp, ast.comprehension) and any(isinstance(y, ast.Name) and y.id in tainted for y in ast.walk(comp.iter)):
+                tainted |= {y.id for y in ast.walk(comp.target) if isinstance(y, ast.Name)}
         for x in walk_body(fi.node.body):
             if isinstance(x, ast.Name) and x.id in tainted and isinstance(x.ctx, ast.Load):
                 p = pm.get(x)
@@ -312,3 +316,9 @@ def run(repo: Repo, rep: Report, tier: str) -> None:
     from .c06 import signed_unit_rule
 
     signed_unit_rule(repo, rep, "C01.R6")
+    from .c02 import flush_rule, offset_pad_rule
+    from .c11 import size_rule
+
+    flush_rule(repo, rep, "C01.R7")
+    size_rule(repo, rep, "C01.R8")
+    offset_pad_rule(repo, rep, "C01.R9")
